@@ -18,6 +18,7 @@ import GwModel.MergeSig
 import GwModel.NewOpts
 import GwModel.Middleware
 import GwModel.GwQuery
+import GwModel.MergeDirs
 /-! gwdrv: one JSON object per line in, one per line out (DESIGN §2.2). Core + Lean.Data.Json only. -/
 open Lean Codec
 
@@ -348,8 +349,14 @@ def runMergeSig (j : Json) : Json :=
   let b := fld ((getObj? j "b").getD (Json.mkObj []))
   Json.mkObj [("types", .bool (Ms.typesEqual (some a.1) (some b.1))), ("args", .bool (Ms.argDefsEq a.2 b.2))]
 
+/-- applied directive lists of two declarations (each application as its canonical text) through `Md.listsEqual` -/
+def runMergeDirs (j : Json) : Json :=
+  let strs (k : String) : List String := (getArr j k).map fun x => x.getStr?.toOption.getD ""
+  Json.mkObj [("equal", .bool (Md.listsEqual (strs "a") (strs "b")))]
+
 def handle (j : Json) : Json :=
   match getStr j "op" with
+  | "mergedirs" => runMergeDirs j
   | "mono" => Json.mkObj [("data", encVal (Mono.mono (decCase j)))]
   | "merge" => runMerge j
   | "mergesig" => runMergeSig j
